@@ -46,7 +46,7 @@ pub fn run(quick: bool) -> ! {
         })
         .collect();
     let n_threads = 8;
-    let iters = if quick { 1200 } else { 12000 };
+    let iters = if quick { 40_000 } else { 200_000 };
     let problems: Arc<Mutex<Vec<String>>> = Arc::new(Mutex::new(vec![]));
     let ops_done = Arc::new(AtomicUsize::new(0));
     let barrier = Arc::new(Barrier::new(n_threads));
